@@ -228,6 +228,11 @@ func C05ExtraConfigs(thorough bool) []*world.Config {
 	nv := world.IntCfg(2, []int{1, 2, 3, 4, 8}, []interface{}{nil}, nil, B, "none")
 	nv.RegisteredTypes = true
 	cs = append(cs, nv)
+	// bodies longer than 127 bytes (two-byte length prefixes) and a node with more than 127 entries
+	long := strings.Repeat("0123456789", 30)
+	cs = append(cs, world.IntCfg(2, []int{1, 2, 3, 4}, []interface{}{long, "s"}, "", B, "none"))
+	cs = append(cs, world.IntCfg(4, []int{1, 2, 4, 8}, []interface{}{long, ""}, "", M, "none"))
+	cs = append(cs, seededFull(world.UintCfg(256, urange(1, 130), 1, B, "none"), 1))
 	tg := world.UintCfg(2, urange(1, 5), 2, M, "none")
 	tg.Tagged = true
 	tg.Name = "tagged/" + tg.Name
